@@ -2,8 +2,7 @@
 """Regenerate MANIFEST.json from checklib/props.py (keeps the manifest valid and in sync)."""
 import json, os, sys
 sys.path.insert(0, os.path.dirname(os.path.abspath(__file__)))
-from checklib.props import PROPS
-from checklib.manifest_text import LEVEL_TEXT, NOT_APPLICABLE, HOOK_COMMITS
+from checklib.props import PROPS, LEVEL_TEXT, NOT_APPLICABLE, HOOK_COMMITS
 
 ids = [json.loads(l)["id"] for l in open("properties.jsonl")]
 checks = []
